@@ -28,6 +28,10 @@ def to_sympy(t, symbols: dict, leaf=None):
     """symbols: term -> sympy expression for leaves (parameters, attributes...)."""
     if t in symbols:
         return symbols[t]
+    if leaf is not None:
+        r = leaf(t)
+        if r is not None:
+            return r
     tag = t[0]
     if tag == "c":
         v = t[1]
